@@ -123,6 +123,30 @@ func ruleChildVisit(p *Prog, r *Result) {
 						continue
 					}
 				}
+				if m == "Check" && !isSliceField(t, f) {
+					// the child is checked before the node can be accepted: every success return of T.Check
+					// (a constant nil error) is dominated by a child Check call made in T.Check itself
+					early := ""
+					for _, b := range fn.Blocks {
+						ret := retOf(b)
+						if ret == nil || !isNilConst(retVal(ret, len(ret.Results)-1)) {
+							continue
+						}
+						dom := false
+						for _, c := range calls {
+							if c.Parent() != fn || instrDominates(c, ret) {
+								dom = true
+							}
+						}
+						if !dom {
+							early = "success return at " + p.InstrPos(ret) + " is reached without checking child " + f
+						}
+					}
+					if early != "" {
+						r.hit(key, p.InstrPos(calls[0]), early)
+						continue
+					}
+				}
 				r.ok(key, p.InstrPos(calls[0]), fmt.Sprintf("%d invoke(s) of %s on %s", len(calls), m, f))
 			}
 		}
@@ -506,4 +530,18 @@ func ruleKWFlags(p *Prog, r *Result) {
 		}
 		r.add(found, "FieldExpr.Check|"+pair.flag, p.Pos(fc.Pos()), fmt.Sprintf("must return an error when ctx.%s and Field == %s", pair.flag, pair.kw))
 	}
+}
+
+func isSliceField(t *types.Named, field string) bool {
+	st, ok := t.Underlying().(*types.Struct)
+	if !ok {
+		return false
+	}
+	for i := 0; i < st.NumFields(); i++ {
+		if st.Field(i).Name() == field {
+			_, isSl := st.Field(i).Type().Underlying().(*types.Slice)
+			return isSl
+		}
+	}
+	return false
 }
